@@ -15,9 +15,13 @@
 //! Model line grammar (consumed by lean/LocustModel/Drv/C11.lean):
 //!   seq n=<N> hist=<req,req,…|[]> req=<req> obs=<out>|<workers>|<flush>|<canary>
 //!   par n=<N> hist=<…> reqs=<req,req,…> obs=<out,out,…>|<workers>|<flush>|<canary>
-//!   locks <file>:<fn> <field,field,…>
+//!   locks <file>:<fn> <field,field,…> <held>acquired[@callee],…|[]>
+//!   gate max=<max_wal_size_bytes> size=<accounted bytes before the call> add=<accounted bytes of the call> obs=<out>|<accounted bytes after>
+//!   stress n=<N> readers=<k> rounds=<r> queries=<q> obs=<worst out>|<workers>|<flush>|<canary>
 //!   open k=<wal files> bad=<corrupted wal files> out=<ok|panic|hang>      LocustDB::new on an existing directory
 //! <req> = q.<outs>          query task, one body outcome per partition, each d|e|f (done / error value / fault)
+//!       | qp.<outs>.<fin>.<kind>   failing query built so that the failure arises in a chosen phase: outcome of run() per partition,
+//!                           outcome of the last stage of push_result (final merge / final pass / output), kind of the error value
 //!       | qv.<kind>         query answered with an error value of that kind (wherever it is produced)
 //!       | qn.<p>.<m>.<c>    query of the natural-panic list over p partitions: m worker panics and c caller panics were observed
 //!       | t.<d|f>           custom FnTask whose body returns / panics
@@ -243,6 +247,65 @@ enum Req {
     Flush { rows: usize, batch_fault: bool, compact_fault: bool, thread_fault: bool, io_fault: bool },
     /// ingest with a fault injected in the caller under the wal_size lock (validates the poisoning part of the model)
     CallerFaultWal,
+    /// failing query whose failure arises in a chosen phase of query execution; builds its own table first
+    Phase(Phase),
+}
+
+/// A table built so that the statement fails in one phase of `QueryTask` (run(): scan of partition k, merge of two adjacent
+/// results of one worker; push_result under the state mutex: final merge across workers, final pass).
+#[derive(Clone, Debug)]
+struct Phase {
+    name: &'static str,
+    /// values of column `x`, per partition
+    parts: Vec<Vec<i64>>,
+    /// the partition in which column `m` holds strings instead of integers
+    str_part: Option<usize>,
+    /// `{t}` = the table
+    sql: &'static str,
+    /// model: outcome of run() per partition (d|e) and of the last stage of push_result
+    bodies: String,
+    fin: char,
+    kind: &'static str,
+    /// the last partition stays in the open buffer
+    last_open: bool,
+}
+
+const BIG_A: i64 = 3_100_000_000_000_000_000;  // 2·A fits in an i64, 3·A does not
+const BIG_B: i64 = 5_000_000_000_000_000_000;  // 2·B does not fit
+
+/// Every phase, for `np` ≥ 3 partitions; `k` = the partition that fails (scan phases); `n` workers decide what is forced.
+fn phases(np: usize, k: usize, n: usize, last_open: bool) -> Vec<Phase> {
+    let k = k % np;
+    let small: Vec<Vec<i64>> = (0..np).map(|i| vec![i as i64 + 1, 2]).collect();
+    let at = |c: char| -> String { (0..np).map(|i| if i == k { c } else { 'd' }).collect() };
+    let all_d: String = "d".repeat(np);
+    let mut with_max = small.clone();
+    with_max[k] = vec![i64::MAX, 1];
+    // [B, B, 1, 1 …]: the first merge a single worker does in run() overflows; with several workers the overflow may
+    // instead appear in the final merge (both are failing requests; the phase is forced for n = 1)
+    let mut run_merge: Vec<Vec<i64>> = (0..np).map(|_| vec![1, 0]).collect();
+    run_merge[0] = vec![BIG_B, 0];
+    run_merge[1] = vec![BIG_B, 0];
+    // [A, A, A, 0 …]: every partition and every pair fits, the total does not: whoever scans what, the overflow can only
+    // appear when the third of the three is merged, and a worker merges only two adjacent results of the SAME level in
+    // run(), so with three big partitions it is the merge inside push_result
+    let mut final_merge: Vec<Vec<i64>> = (0..np).map(|_| vec![0, 0]).collect();
+    for p in final_merge.iter_mut().take(3) { *p = vec![BIG_A, 0]; }
+    let p = |name, parts: &Vec<Vec<i64>>, str_part, sql, bodies: &String, fin, kind| Phase { name, parts: parts.clone(), str_part, sql, bodies: bodies.clone(), fin, kind, last_open };
+    vec![
+        p("scan-overflow", &with_max, None, "SELECT SUM(x) FROM {t}", &at('e'), 'd', "overflow"),
+        p("scan-expr-overflow", &with_max, None, "SELECT x * 4 FROM {t}", &at('e'), 'd', "overflow"),
+        p("scan-type-all", &small, None, "SELECT x + s FROM {t}", &"e".repeat(np), 'd', "type"),
+        p("scan-type-one", &small, Some(k), "SELECT m + 1 FROM {t}", &at('e'), 'd', "type"),
+        p("scan-fatal-one", &small, Some(k), "SELECT SUM(m) FROM {t}", &at('e'), 'd', "fatal"),
+        p(if n == 1 { "merge-run" } else { "merge-run-or-final" }, &run_merge, None, "SELECT SUM(x) FROM {t}", &format!("de{}", "d".repeat(np - 2)), 'd', "overflow"),
+        p("merge-final", &final_merge, None, "SELECT SUM(x) FROM {t}", &all_d, 'e', "overflow"),
+        p("final-pass-overflow", &small, None, "SELECT SUM(x) * 9223372036854775807 FROM {t}", &all_d, 'e', "overflow"),
+        p("final-pass-div0", &small, None, "SELECT SUM(x) / (COUNT(1) - COUNT(1)) FROM {t}", &all_d, 'e', "overflow"),
+        p("final-pass-type", &small, None, "SELECT SUM(x) + 'a' FROM {t}", &all_d, 'e', "type"),
+        // output conversion: offsets beyond the result and a limit of u64::MAX go through convert_to_output_format's clamping
+        p("output-offset", &small, None, "SELECT SUM(x) FROM {t} LIMIT 2 OFFSET 2000", &all_d, 'd', "none"),
+    ]
 }
 
 struct Outcome { tok: String, out: String, class: String, note: String }
@@ -348,6 +411,31 @@ fn run_req(d: &mut Dut, r: &Req) -> Outcome {
             Outcome { tok: format!("fl.{}.{}.{}.{}.{}", k1, f1, k2, f2, tf), out: o,
                       class: format!("flush:{}{}{}", if f1 > 0 { "batchfault" } else { "" }, if f2 > 0 { "compactfault" } else { "" }, if io_fired { "iofault" } else if tf > 0 { "threadfault" } else if f1 + f2 == 0 { "ok" } else { "" }),
                       note: format!("trace={}", tr.len()) }
+        }
+        Req::Phase(ph) => {
+            let table = format!("ph{}", d.next_id);
+            d.next_id += 1;
+            let np = ph.parts.len();
+            let mut built = true;
+            for (i, xs) in ph.parts.iter().enumerate() {
+                let len = xs.len();
+                let m = if ph.str_part == Some(i) { ColRep::Str((0..len).map(|j| format!("m{}", j)).collect()) } else { ColRep::I64(xs.iter().map(|x| x % 1000).collect()) };
+                let b = Batch { table: table.clone(), len: len as u64, cols: vec![
+                    ("x".into(), ColRep::I64(xs.clone())), ("s".into(), ColRep::Str((0..len).map(|j| ["a", "b"][j % 2].to_string()).collect())), ("m".into(), m)] };
+                let db = d.db.clone();
+                if !matches!(with_deadline(DEADLINE, move || ingest(&db, &[b])), Some(Ok(()))) { built = false; break; }
+                if !(ph.last_open && i + 1 == np) && d.flush(DEADLINE) != "ok" { built = false; break; }
+            }
+            trace_take();
+            let out = if built { query_full(&d.db, &ph.sql.replace("{t}", &table), true, DEADLINE) } else { QOut::Hang };
+            let o = match &out { QOut::Ok { .. } => "ok".to_string(), other => other.tok() };
+            let tok = match (o.as_str(), o.strip_prefix("err:")) {
+                (_, Some(kind)) => format!("qp.{}.{}.{}", ph.bodies, ph.fin, kind),
+                ("ok", _) => format!("q.{}", "d".repeat(np)),
+                _ => format!("qp.{}.{}.{}", ph.bodies, ph.fin, ph.kind),
+            };
+            Outcome { tok, out: o, class: format!("{}:p{}{}", ph.name, np, if ph.last_open { "+buffer" } else { "" }),
+                      note: format!("{} parts={:?} str_part={:?} | {}", ph.sql, ph.parts, ph.str_part, out.detail()) }
         }
         Req::CallerFaultWal => {
             arm("ingest:locked", 0, 1);
@@ -553,44 +641,127 @@ fn run_damaged(cases: &mut Cases, rng: &mut Rng, what: &str, io_threads: usize) 
 }
 
 // ------------------------------------------------------------------------------------------------
-// Lock acquisition sites, re-extracted from the source on every run (tie of Conc/LockOrder.lean to /repo).
+// Lock acquisition sites, re-extracted from the source on every run (tie of Conc/LockOrder.lean to the source tree the
+// check runs against: $VERIF_REPO, /repo by default).  Per function (a) the lock fields in textual order and (b) the
+// held -> acquired pairs: a guard bound by `let g = x.lock().unwrap();` is held until its block ends or `drop(g)`; the
+// temporary of `for/match/if/while … x.lock() … {` is held for that block; any other temporary until the end of its
+// statement; while something is held a call `self.f(..)` / `Self::f(..)` of a function of the same file contributes
+// held -> every lock `f` takes (marked `@f`).  The driver checks every pair against the rank function of the theorems.
+fn repo_root() -> String { std::env::var("VERIF_REPO").ok().filter(|s| !s.is_empty()).unwrap_or_else(|| "/repo".to_string()) }
+
+struct Held { field: String, var: String, depth: i32 }
+
+fn strip_comment(raw: &str) -> &str { raw.split("//").next().unwrap_or("") }
+
 fn lock_sites(cases: &mut Cases) {
     let files = ["scheduler/inner_locustdb.rs", "mem_store/table.rs", "mem_store/partition.rs", "scheduler/disk_read_scheduler.rs",
                  "disk_store/storage.rs", "engine/execution/query_task.rs", "scheduler/shared_sender.rs", "mem_store/lru.rs"];
+    let root = repo_root();
     for f in files {
-        let path = format!("/repo/src/{}", f);
-        let text = match std::fs::read_to_string(&path) { Ok(t) => t, Err(_) => { cases.push("locks:missing", &format!("locks {}:? []", f), "missing", ""); continue; } };
+        let path = format!("{}/src/{}", root, f);
+        let text = match std::fs::read_to_string(&path) { Ok(t) => t, Err(_) => { cases.push("locks:missing", &format!("locks {}:? [] []", f), "missing", &path); continue; } };
         let short = f.rsplit('/').next().unwrap();
-        let mut cur = String::new();
-        let mut seqs: Vec<(String, Vec<String>)> = vec![];
         let lines: Vec<&str> = text.lines().collect();
-        for (i, raw) in lines.iter().enumerate() {
-            let line = raw.split("//").next().unwrap_or("");
-            if let Some(pos) = line.find("fn ") {
-                let before_ok = pos == 0 || !line.as_bytes()[pos - 1].is_ascii_alphanumeric();
-                let name: String = line[pos + 3..].chars().take_while(|c| c.is_alphanumeric() || *c == '_').collect();
-                if before_ok && !name.is_empty() { cur = name; }
-            }
-            let mut rest = line;
-            loop {
-                let hit = [".lock()", ".read()", ".write()"].iter().filter_map(|m| rest.find(m).map(|p| (p, m.len()))).min();
-                let (p, mlen) = match hit { Some(h) => h, None => break };
-                // receiver: the identifier before the call (possibly `name()` or `name.0`), on this line or the previous one
-                let mut recv: String = receiver_of(&rest[..p]);
-                if recv.is_empty() {
-                    let mut j = i;
-                    while j > 0 && recv.is_empty() { j -= 1; recv = receiver_of(lines[j].split("//").next().unwrap_or("").trim_end()); if !lines[j].trim().is_empty() { break; } }
+        // pass A: per function the fields in textual order (all occurrences of a name merged for the callee table)
+        let mut callee: std::collections::BTreeMap<String, Vec<String>> = Default::default();
+        for pass in 0..2 {
+            let mut cur = String::new();
+            let mut seqs: Vec<(String, Vec<String>, Vec<String>)> = vec![];
+            let mut depth: i32 = 0;
+            let mut held: Vec<Held> = vec![];
+            let mut temps: Vec<String> = vec![];
+            for (i, raw) in lines.iter().enumerate() {
+                let line = strip_comment(raw);
+                if let Some(pos) = line.find("fn ") {
+                    let before_ok = pos == 0 || !line.as_bytes()[pos - 1].is_ascii_alphanumeric();
+                    let name: String = line[pos + 3..].chars().take_while(|c| c.is_alphanumeric() || *c == '_').collect();
+                    if before_ok && !name.is_empty() && cur != name { cur = name; held.clear(); temps.clear(); }
                 }
-                let recv = recv.trim_end_matches("_mutex").to_string();
-                if recv != "stdout" && recv != "stdin" && recv != "stderr" {
-                    match seqs.last_mut() { Some((n, v)) if *n == cur => v.push(recv), _ => seqs.push((cur.clone(), vec![recv])) }
+                // drop(guard)
+                let mut rest0 = line;
+                while let Some(p) = rest0.find("drop(") {
+                    let v: String = rest0[p + 5..].chars().take_while(|c| c.is_alphanumeric() || *c == '_').collect();
+                    held.retain(|h| h.var != v);
+                    rest0 = &rest0[p + 5..];
                 }
-                rest = &rest[p + mlen..];
+                let trimmed = line.trim();
+                // a block that closes at the head of the line (`} else if … {`) ends before anything else on the line happens
+                let lead = line.len() - line.trim_start().len() + trimmed.chars().take_while(|c| *c == '}').count();
+                for _ in 0..trimmed.chars().take_while(|c| *c == '}').count() { depth -= 1; held.retain(|h| h.depth <= depth); }
+                // calls of functions of this file while something is held
+                if pass == 1 && (!held.is_empty() || !temps.is_empty()) {
+                    for (name, fields) in callee.iter() {
+                        if *name == cur { continue; }
+                        if line.contains(&format!("self.{}(", name)) || line.contains(&format!("Self::{}(", name)) {
+                            for h in held.iter().map(|h| &h.field).chain(temps.iter()) {
+                                for b in fields {
+                                    let pr = format!("{}>{}@{}", h, b, name);
+                                    if let Some(e) = seqs.last_mut() { if e.0 == cur && !e.2.contains(&pr) { e.2.push(pr); } }
+                                }
+                            }
+                        }
+                    }
+                }
+                let mut rest = line;
+                loop {
+                    let hit = [".lock()", ".read()", ".write()"].iter().filter_map(|m| rest.find(m).map(|p| (p, m.len()))).min();
+                    let (p, mlen) = match hit { Some(h) => h, None => break };
+                    // receiver: the identifier before the call (possibly `name()` or `name.0`), on this line or the previous one
+                    let mut recv: String = receiver_of(&rest[..p]);
+                    if recv.is_empty() {
+                        let mut j = i;
+                        while j > 0 && recv.is_empty() { j -= 1; recv = receiver_of(strip_comment(lines[j]).trim_end()); if !lines[j].trim().is_empty() { break; } }
+                    }
+                    let recv = recv.trim_end_matches("_mutex").to_string();
+                    if recv != "stdout" && recv != "stdin" && recv != "stderr" {
+                        let mut pairs: Vec<String> = vec![];
+                        for h in held.iter().map(|h| &h.field).chain(temps.iter()) { pairs.push(format!("{}>{}", h, recv)); }
+                        match seqs.last_mut() { Some(e) if e.0 == cur => { e.1.push(recv.clone()); for pr in pairs { if !e.2.contains(&pr) { e.2.push(pr); } } }
+                                                _ => seqs.push((cur.clone(), vec![recv.clone()], pairs)) }
+                        // how long does this guard live?
+                        let after = rest[p + mlen..].trim();
+                        let after = if after.is_empty() { lines.get(i + 1).map(|l| strip_comment(l).trim()).unwrap_or("") } else { after };
+                        let mut tail = after;
+                        loop {
+                            if let Some(t) = tail.strip_prefix(".unwrap()") { tail = t; continue; }
+                            if let Some(t) = tail.strip_prefix("?") { tail = t; continue; }
+                            if tail.starts_with(".expect(") { if let Some(e) = tail.find(')') { tail = &tail[e + 1..]; continue; } }
+                            break;
+                        }
+                        // start of the statement: this line, or an earlier one when the chain was broken over lines
+                        let mut st = i;
+                        while st > 0 {
+                            let prev = strip_comment(lines[st - 1]).trim();
+                            if prev.is_empty() || prev.ends_with(';') || prev.ends_with('{') || prev.ends_with('}') || prev.ends_with(',') { break; }
+                            st -= 1;
+                        }
+                        let head = strip_comment(lines[st]).trim();
+                        let last = trimmed;
+                        if tail == ";" && head.starts_with("let ") {
+                            let h2 = head[4..].trim_start();
+                            let h2 = h2.strip_prefix("mut ").unwrap_or(h2);
+                            let var: String = h2.chars().take_while(|c| c.is_alphanumeric() || *c == '_').collect();
+                            held.push(Held { field: recv, var, depth });
+                        } else if last.ends_with('{') && ["for ", "match ", "if ", "while "].iter().any(|k| head.starts_with(k) || head.contains(&format!("= {}", k))) {
+                            held.push(Held { field: recv, var: String::new(), depth: depth + 1 });
+                        } else {
+                            temps.push(recv);
+                        }
+                    }
+                    rest = &rest[p + mlen..];
+                }
+                for c in line.chars().skip(lead) { if c == '{' { depth += 1; } else if c == '}' { depth -= 1; held.retain(|h| h.depth <= depth); } }
+                if trimmed.ends_with(';') || trimmed.ends_with('{') || trimmed.ends_with('}') { temps.clear(); }
             }
-        }
-        // merge repeated function names (e.g. `restore` in several impls of one file stay separate by order of appearance)
-        for (name, v) in seqs {
-            cases.push(&format!("locks:{}", short), &format!("locks {}:{} {}", short, name, v.join(",")), "OK", "");
+            if pass == 0 {
+                for (name, v, _) in &seqs { let e = callee.entry(name.clone()).or_default(); for x in v { if !e.contains(x) { e.push(x.clone()); } } }
+            } else {
+                // repeated function names (e.g. `restore` in several impls of one file) stay separate by order of appearance
+                for (name, v, pairs) in seqs {
+                    let ptok = if pairs.is_empty() { "[]".to_string() } else { pairs.join(",") };
+                    cases.push(&format!("locks:{}", short), &format!("locks {}:{} {} {}", short, name, v.join(","), ptok), "OK", "");
+                }
+            }
         }
     }
 }
@@ -601,6 +772,165 @@ fn receiver_of(prefix: &str) -> String {
     let t = t.strip_suffix(".0").unwrap_or(t);
     let id: String = t.chars().rev().take_while(|c| c.is_alphanumeric() || *c == '_').collect::<String>().chars().rev().collect();
     id
+}
+
+// ------------------------------------------------------------------------------------------------
+// The log-size gate of ingestion: on-disk databases whose `max_wal_size_bytes` sits at / next to the accounted size.
+// Every ingestion call runs under a deadline; after it the harness waits for the flush thread's next poll and reads the
+// accounted size back from the WAL directory (`data.len()` of a segment = file size - 48 header bytes).
+const GATE_DEADLINE: u64 = 20;
+
+fn wal_bytes(dir: &std::path::Path) -> u64 {
+    let mut f = vec![];
+    files_under(dir, "wal", &mut f);
+    f.iter().map(|p| std::fs::metadata(p).map(|m| m.len().saturating_sub(48)).unwrap_or(0)).sum()
+}
+/// one column per batch: the packed size of a segment with several columns depends on the iteration order of a HashMap
+fn gate_batch(start: i64, n: usize) -> Batch { Batch { table: "g".into(), len: n as u64, cols: vec![("k".into(), ColRep::I64((start..start + n as i64).map(|i| i * 1_000_003).collect()))] } }
+fn gate_batches() -> Vec<Batch> { vec![canary_batch(), gate_batch(0, 8), gate_batch(8, 4), gate_batch(12, 8)] }
+
+/// nominal accounted size of a call whose segment was flushed before it could be measured (a segment's packed size varies
+/// by a few bytes from run to run — it contains a timestamp —, which is why no limit is derived from a calibration run)
+const NOMINAL_ADD: u64 = 100;
+
+#[derive(Clone, Debug)]
+enum GateLimit { /// fresh database with this limit
+                 Abs(u64),
+                 /// `k` calls into a database that is then dropped without a flush; reopened with limit = recovered accounted size + d
+                 Recovered(usize, i64) }
+
+fn settle(dir: &std::path::Path, scale: u64) -> u64 {
+    // the flush thread polls once a second: wait until the log is gone or two polls have passed
+    let t0 = Instant::now();
+    let mut after = wal_bytes(dir);
+    while after != 0 && t0.elapsed() < Duration::from_millis(2600 * scale) { std::thread::sleep(Duration::from_millis(40)); after = wal_bytes(dir); }
+    after
+}
+
+/// one scenario; returns the rows and whether a call hung
+fn gate_once(n: usize, spec: &GateLimit, label: &str, scale: u64) -> (Vec<CaseRow>, bool) {
+    let mut rows: Vec<CaseRow> = vec![];
+    let dir = tempfile::tempdir().unwrap();
+    let batches = gate_batches();
+    let (limit, first) = match spec {
+        GateLimit::Abs(l) => (*l, 0),
+        GateLimit::Recovered(k, d) => {
+            let opts = Options { threads: n, db_path: Some(dir.path().to_path_buf()), ..base_options() };
+            let db = match with_deadline(DEADLINE, move || Arc::new(LocustDB::new(&opts))) { Some(Ok(db)) => db, _ => return (rows, false) };
+            for b in batches.iter().take(*k).cloned() { let db2 = db.clone(); let _ = with_deadline(DEADLINE, move || ingest(&db2, &[b])); }
+            drop(db);
+            std::thread::sleep(Duration::from_millis(150));
+            ((wal_bytes(dir.path()) as i64 + d).max(0) as u64, *k)
+        }
+    };
+    let opts = Options { threads: n, db_path: Some(dir.path().to_path_buf()), max_wal_size_bytes: limit, ..base_options() };
+    let db = match with_deadline(DEADLINE * scale, move || Arc::new(LocustDB::new(&opts))) {
+        Some(Ok(db)) => db,
+        _ => { rows.push((format!("gate:{}:open", label), "open k=0 bad=0 out=hang".into(), "hang".into(), format!("max_wal_size_bytes={}", limit))); return (rows, true); }
+    };
+    let mut size = if first > 0 { settle(dir.path(), scale) } else { 0 };
+    let mut hang = false;
+    let mut hist: Vec<String> = vec![];
+    for (i, b) in batches.into_iter().enumerate().skip(first) {
+        let db2 = db.clone();
+        let out = match with_deadline(GATE_DEADLINE * scale, move || ingest(&db2, &[b])) { None => "hang", Some(Err(_)) => "panic", Some(Ok(())) => "ok" };
+        let after = if out == "ok" { settle(dir.path(), scale) } else { wal_bytes(dir.path()) };
+        // what the call added: readable while its segment is still there (no flush: after = size + add; the call waited for a
+        // flush and its own segment stayed: after = add)
+        let add = if out == "ok" && after > size { after - size } else if out == "ok" && after > 0 { after } else { NOMINAL_ADD };
+        rows.push((format!("gate:{}", label), format!("gate max={} size={} add={} obs={}|{}", limit, size, add, out, after),
+                   format!("{} after={}", out, after), format!("n{} call {} limit {}", n, i, label)));
+        if out != "ok" { hang = out == "hang"; break; }
+        hist.push("in".into());
+        size = after;
+    }
+    if !hang {
+        // the usual canaries: a statistics call, then worker count, canary flush, canary query
+        let mut d = Dut { db, conf: Conf { n, disk: true, flush_threads: 1, io_threads: 1, cf: 4 }, _dir: Some(dir), t_parts: 0, t_buffered: false, next_id: 100 };
+        let o = run_req(&mut d, &Req::Stats);
+        let (w, fl, c) = observe(&mut d, DEADLINE * scale);
+        rows.push((format!("gate:{}:canaries", label), format!("seq n={} hist={} req={} obs={}|{}|{}|{}", n, toks(&hist, |s| s.clone()), o.tok, o.out, w, fl, c),
+                   format!("{} w={} flush={} canary={}", o.out, w, fl, c), format!("limit {}", label)));
+        if o.out == "hang" || fl == "hang" || c == "hang" || w == 0 { hang = true; }
+    }
+    (rows, hang)
+}
+
+fn run_gate(cases: &mut Cases, rng: &mut Rng, thorough: bool) {
+    if !only("gate") { return; }
+    let mut limits: Vec<(GateLimit, String)> = vec![(GateLimit::Abs(0), "0".into()), (GateLimit::Abs(1), "1".into())];
+    for k in if thorough { vec![1usize, 2, 3] } else { vec![1usize, 2] } {
+        for d in [-1i64, 0, 1] { limits.push((GateLimit::Recovered(k, d), format!("after{}{:+}", k, d))); }
+    }
+    let handles: Vec<_> = limits.into_iter().map(|(l, label)| {
+        let n = 1 + rng.below(4) as usize;
+        std::thread::spawn(move || {
+            let (rows, hang) = gate_once(n, &l, &label, 1);
+            if hang { eprintln!("[c11] hang seen in gate:{} ({:?}), re-running with doubled deadlines", label, l); gate_once(n, &l, &label, 2).0 } else { rows }
+        })
+    }).collect();
+    for h in handles {
+        if let Ok(rows) = h.join() { for (class, line, imp, note) in rows { cases.push(&class, &line, &imp, &note); } }
+    }
+}
+
+// ------------------------------------------------------------------------------------------------
+// Concurrent stress on ONE table: `readers` clients query it / ask for statistics while one client alternates
+// ingest_efficient and force_flush.  A call that has not returned after 2 × DEADLINE is a hang (a deadlock never ends, a slow
+// machine does); after the rounds the usual canaries.
+fn call_until<T: Send + 'static, F: FnOnce() -> T + Send + 'static>(secs: u64, f: F) -> &'static str {
+    match with_deadline(secs, f) { None => "hang", Some(Err(_)) => "panic", Some(Ok(_)) => "ok" }
+}
+
+fn run_stress(cases: &mut Cases, n: usize, readers: usize, rounds: usize, rows: usize, cf: u64, tag: &str) {
+    if !only(tag) { return; }
+    let conf = Conf { n, disk: false, flush_threads: 2, io_threads: 1, cf };
+    let mut d = match Dut::open(&conf) { Some(d) => d, None => { cases.push(&format!("{}:open", tag), "open k=0 bad=0 out=hang", "hang", &conf_tok(&conf)); return; } };
+    let stop = Arc::new(std::sync::atomic::AtomicBool::new(false));
+    let worst: Arc<Mutex<String>> = Arc::new(Mutex::new("ok".into()));
+    let queries = Arc::new(AtomicUsize::new(0));
+    let note_worst = |w: &Arc<Mutex<String>>, o: &str| { let mut g = w.lock().unwrap(); if *g == "ok" && o != "ok" { *g = o.to_string(); } };
+    let mut handles = vec![];
+    for r in 0..readers {
+        let (db, stop, worst, queries) = (d.db.clone(), stop.clone(), worst.clone(), queries.clone());
+        handles.push(std::thread::spawn(move || {
+            let mut i = r;
+            while !stop.load(Ordering::SeqCst) {
+                let o = if i % 3 == 2 {
+                    let db = db.clone();
+                    match with_deadline(2 * DEADLINE, move || futures::executor::block_on(db.table_stats())) { None => "hang".to_string(), Some(Err(_)) => "panic".into(), Some(Ok(Ok(_))) => "ok".into(), Some(Ok(Err(_))) => "err:canceled".into() }
+                } else {
+                    match query_full(&db, "SELECT COUNT(1), SUM(v), MAX(id) FROM t", true, 2 * DEADLINE) { QOut::Ok { .. } => "ok".to_string(), other => other.tok() }
+                };
+                queries.fetch_add(1, Ordering::SeqCst);
+                if o != "ok" { let mut g = worst.lock().unwrap(); if *g == "ok" { *g = o.clone(); } }
+                if o == "hang" { break; }
+                i += 1;
+            }
+        }));
+    }
+    let mut done_rounds = 0;
+    for _ in 0..rounds {
+        let db = d.db.clone();
+        let b = t_batch(d.next_id, rows);
+        d.next_id += rows as i64;
+        let o = call_until(2 * DEADLINE, move || ingest(&db, &[b]));
+        if o != "ok" { note_worst(&worst, o); break; }
+        let o = d.flush(2 * DEADLINE);
+        if o != "ok" { note_worst(&worst, &o); break; }
+        if *worst.lock().unwrap() == "hang" { break; }
+        done_rounds += 1;
+    }
+    stop.store(true, Ordering::SeqCst);
+    let t0 = Instant::now();
+    while handles.iter().any(|h| !h.is_finished()) && t0.elapsed() < Duration::from_secs(2 * DEADLINE + 5) { std::thread::sleep(Duration::from_millis(10)); }
+    if handles.iter().any(|h| !h.is_finished()) { note_worst(&worst, "hang"); }
+    let out = worst.lock().unwrap().clone();
+    d.t_buffered = false;
+    let (w, fl, c) = observe(&mut d, DEADLINE);
+    let q = queries.load(Ordering::SeqCst);
+    cases.push(&format!("{}:n{}:r{}", tag, n, readers), &format!("stress n={} readers={} rounds={} queries={} obs={}|{}|{}|{}", n, readers, rounds, q.min(100_000), out, w, fl, c),
+               &format!("{} w={} flush={} canary={}", out, w, fl, c), &format!("{} rounds done {} rows/round {}", conf_tok(&conf), done_rounds, rows));
 }
 
 // ------------------------------------------------------------------------------------------------
@@ -637,6 +967,7 @@ fn main() {
     set_sync_callback(Some(Box::new(sync_cb)));
     vharness::locustdb::verif::set_fs_callback(Some(Box::new(fs_cb)));
     let mut rng = Rng::new(args.seed);
+    let seed0 = args.seed as usize;
     let mut cases = Cases::create(&args.out);
     let t0 = Instant::now();
     let mem2 = Conf { n: 2, disk: false, flush_threads: 1, io_threads: 1, cf: 4 };
@@ -673,6 +1004,31 @@ fn main() {
     }
     // the poisoning semantics of the model (fault injected in the caller under wal_size; outside the property: SKIP)
     run_seq(&mut cases, &mem2, &[Req::CallerFaultWal, Req::Ingest { rows: 2 }], "poison");
+
+    // ---- failing requests by the phase of query execution the failure arises in, 1..4 workers, >= 3 partitions
+    for n in 1..=4usize {
+        let nps: Vec<usize> = if args.thorough() { vec![3, 4, 5, 7] } else { vec![3, 4 + (n + seed0) % 2] };
+        for np in nps {
+            let c = Conf { n, disk: n == 3, flush_threads: 1, io_threads: 1, cf: 1_000_000 };
+            let mut reqs: Vec<Req> = vec![];
+            for ph in phases(np, n + seed0, n, (n + seed0) % 2 == 0) { reqs.push(Req::Phase(ph)); }
+            // merge-final once more at the end, after all the other failures
+            reqs.push(Req::Phase(phases(np, 0, n, false).remove(6)));
+            reqs.push(q(None));
+            run_seq(&mut cases, &c, &reqs, "phase");
+        }
+    }
+
+    // ---- the log-size gate of ingestion at and around the accounted size
+    run_gate(&mut cases, &mut rng, args.thorough());
+
+    // ---- several clients reading one table while another alternates ingest and force_flush
+    if args.thorough() {
+        for (n, r) in [(4usize, 6usize), (2, 4), (1, 3), (3, 8)] { run_stress(&mut cases, n, r, 150, 6000, if r % 2 == 0 { 4 } else { 1_000_000 }, "stress"); }
+    } else {
+        run_stress(&mut cases, 4, 6, 60, 8000, 4, "stress");
+        run_stress(&mut cases, 2, 4, 60, 4000, 1_000_000, "stress");
+    }
 
     // ---- every error kind / every natural query once, against one and two workers
     for n in if args.thorough() { vec![1usize, 2] } else { vec![2usize] } {
